@@ -35,6 +35,7 @@ POLDEFS = [
 ]
 REQ6 = ["T1:k1", "T1:k2", "T2:k1", "T2:k2", "T1:", "T3:k1"]
 REQ8 = REQ6 + ["T2:", "T3:"]
+REQ4 = ["T1:k1", "T1:k2", "T2:k1", "T3:k1"]
 
 KNOWN_SIG = "C18 over-permit via deleted role"
 
@@ -51,7 +52,7 @@ def mc_module(base, poldef):
         base, base, " @@\n              ".join(rows))
 
 
-def consts(poldef, mode, errops, subjects=2, roles=2, req=REQ6, depth=None):
+def consts(poldef, mode, errops, subjects=2, roles=2, req=REQ6, depth=None, pending=99):
     s = """CONSTANTS
   Subject = %s
   Role = %s
@@ -61,9 +62,10 @@ def consts(poldef, mode, errops, subjects=2, roles=2, req=REQ6, depth=None):
   ReqObj = %s
   DeleteMode = "%s"
   ErrOps = %s
+  MaxPending = %d
 """ % (tla_set(["s%d" % (i + 1) for i in range(subjects)]),
        tla_set(["r%d" % (i + 1) for i in range(roles)]),
-       tla_set(sorted(poldef)), tla_set(req), mode, "TRUE" if errops else "FALSE")
+       tla_set(sorted(poldef)), tla_set(req), mode, "TRUE" if errops else "FALSE", pending)
     if depth is not None:
         s += "  Depth = %d\n" % depth
     return s
@@ -90,26 +92,38 @@ def gen_cfg(poldef, mode, errops, depth, **kw):
 
 
 def write_hists(res, path, limit=None, seed=0):
+    """Write the histories TLC printed; mark a step `skip` when its whole call prefix was
+    already seen in an earlier history of this file (the harness still executes the call,
+    it does not repeat the checks). Returns (#histories, samples, #distinct prefixes)."""
     n = 0
     samples = []
+    seen = set()
     with open(path, "w") as f:
         for h in res.hists():
+            key = ()
+            for st in h:
+                c = st["call"]
+                key = hash((key, c["a"], c["r"], c["p"], c["s"], c["ok"]))
+                if key in seen:
+                    st["skip"] = True
+                else:
+                    seen.add(key)
             f.write(json.dumps(h, separators=(",", ":")) + "\n")
             if n < 1:
                 samples.append(" ; ".join(calls_of(h)))
             n += 1
             if limit and n >= limit:
                 break
-    return n, samples
+    return n, samples, len(seen)
 
 
 def go(ctx, run, env, tag, timeout=1500):
     return ctx.go_test("core", PKG, HARNESS, run, env=env, tag=tag, timeout=timeout)
 
 
-def replay_file(ctx, path, tag, fast=False, workers=None, idx0=0):
+def replay_file(ctx, path, tag, workers=None, idx0=0):
     out = ctx.path("out_%s.ndjson" % tag)
-    env = {"VERIF_IN": path, "VERIF_OUT": out, "VERIF_FAST": "1" if fast else "0", "VERIF_IDX0": idx0}
+    env = {"VERIF_IN": path, "VERIF_OUT": out, "VERIF_IDX0": idx0}
     if workers:
         env["VERIF_WORKERS"] = workers
     rc, text, wall = go(ctx, "^TestVerifRBACReplay$", env, tag)
@@ -141,7 +155,10 @@ def line_of(path, i):
     with open(path) as f:
         for k, ln in enumerate(f):
             if k == i:
-                return json.loads(ln)
+                h = json.loads(ln)
+                for st in h:
+                    st.pop("skip", None)
+                return h
     return None
 
 
@@ -187,23 +204,30 @@ def run(ctx):
                        "violated": r.violated, "wall_s": round(r.wall, 1)})
         return r
 
-    kw = dict(subjects=1, roles=2) if not thorough else dict(subjects=2, roles=2)
-    # repaired designs: everything must hold
+    # model size: the product (view, com) is what grows; MaxPending bounds the calls per tx
+    pdm = dict(sorted(pd0.items())[:2])
+    if not thorough:
+        kw = dict(subjects=1, roles=2, pending=2, req=REQ4)
+        err = False
+    else:
+        kw = dict(subjects=1, roles=2, pending=2, req=REQ6)
+        err = True
+    # repaired designs: everything must hold (proves there is no window besides the named one)
     for m in ("cascade", "refuse"):
-        r = mc("mc_" + m, mc_cfg(pd0, m, True, True, **kw), pd0)
+        r = mc("mc_" + m, mc_cfg(pdm, m, err, True, **kw), pdm)
         if r.violated:
             raise vlib.Inconclusive("design spec: %s violated in mode %s (spec defect)" % (r.violated, m))
         states += r.distinct
         trans += r.generated
     # as written: everything except the named window holds ...
-    r = mc("mc_asis", mc_cfg(pd0, "orphan", True, False, **kw), pd0)
+    r = mc("mc_asis", mc_cfg(pdm, "orphan", err, False, **kw), pdm)
     if r.violated:
         raise vlib.Inconclusive("design spec: %s violated in as-written mode (spec defect)" % r.violated)
     states += r.distinct
     trans += r.generated
     # ... and the window itself is reachable (the counterexample becomes the replayed histories
     # that contain delete_role of an assigned role; the verdict comes from the real code)
-    r = mc("mc_window", orphan_cfg(pd0, **kw), pd0, expect=True)
+    r = mc("mc_window", orphan_cfg(pdm, **kw), pdm, expect=True)
     window = r.violated == "NoOrphanGrant"
     if not window:
         raise vlib.Inconclusive("design spec: Window_DeleteRoleOrphan not reachable in as-written mode")
@@ -234,7 +258,7 @@ def run(ctx):
         if r.violated:
             raise vlib.Inconclusive("generator spec violated %s" % r.violated)
         hp = ctx.path(tag + ".ndjson")
-        n, smp = write_hists(r, hp)
+        n, smp, nprefix = write_hists(r, hp)
         if n == 0:
             raise vlib.Inconclusive("no histories generated (%s)" % tag)
         with open(hp) as f:
@@ -243,13 +267,13 @@ def run(ctx):
                     key = st["call"]["a"] + ("" if st["call"]["ok"] else "!")
                     calls_seen[key] = calls_seen.get(key, 0) + 1
         samples += smp
-        summ, bad, wall = replay_file(ctx, hp, "rp_" + tag, fast=bool(sim) and thorough, workers=workers)
+        summ, bad, wall = replay_file(ctx, hp, "rp_" + tag, workers=workers)
         if summ["replayed"] != n:
             raise vlib.Inconclusive("replayed %s of %s histories (%s)" % (summ["replayed"], n, tag))
         total += n
         for k in stats:
             stats[k] += summ.get(k, 0)
-        replays.append({"plan": tag, "histories": n, "depth": depth, "err_ops": errops, "simulated": bool(sim),
+        replays.append({"plan": tag, "histories": n, "distinct_prefixes_checked": nprefix, "depth": depth, "err_ops": errops, "simulated": bool(sim),
                         "tlc_wall_s": round(r.wall, 1), "replay_wall_s": round(wall, 1),
                         "not_ok": len(bad)})
         bad_rows += [(hp, b) for b in bad]
